@@ -40,11 +40,23 @@ Theorem C25_recycled : forall s d,
      (forall a, dstep s (DBlockFail d a) = Some (add_res s d RRecycled)) /\
      (forall a, dstep s (DTrackingOn d a) = Some (add_res s d RRecycled)) /\
      (forall z i, dstep s (DSetHooks d z i) = Some (add_res s d RRecycled)) /\
-     dstep s (DRelease d) = Some s /\ dstep s (DClose d) = Some s).
+     dstep s (DRelease d) = Some s /\ dstep s (DClose d) = Some s /\
+     (forall a, dstep s (DTry d a) = None)).
 Proof.
   intros s d. split; [intros s'; apply release_marks|]. split; [intros l s' R H; eapply recycled_sticky; eauto|apply recycled_rejects].
 Qed.
 Print Assumptions C25_recycled.
+
+(** ** no send after release.  Do / DoMulti retry a read-only command after a retryable failure that leaves the
+    connection healthy (-LOADING); every attempt re-checks the mark ([DTry] / [DDo] both start with check()).  So from a
+    state in which the client is marked — released or closed at ANY point, in particular during the back-off of a call
+    that is still in progress (from another goroutine or from the RetryDelay callback) — no step, and no continuation of
+    the program, adds an event of that client to any connection's log: nothing of a released session reaches the
+    server, whoever holds its former connection now (e.g. another session between MULTI and EXEC). *)
+Theorem C25_no_send_after_release : forall ls s s' d, recycled s d -> drun s ls = Some s' ->
+  exists evs, d_log s' = d_log s ++ evs /\ forall e, In e evs -> ev_holder e <> HDed d.
+Proof. exact no_send_after_release_run. Qed.
+Print Assumptions C25_no_send_after_release.
 
 (** ** clean-up on release: the log grows by exactly Store's events, issued by the releasing client, ending with the
     release marker; the wire is in the idle list afterwards iff it is still usable. *)
@@ -97,3 +109,26 @@ Example C25_nonvacuous :
   | None => False
   end.
 Proof. vm_compute. repeat split. Qed.
+
+(** non-vacuity of the retry loop: session 1's GET gets -LOADING (first attempt, [DTry]); during the back-off session 1
+    is released, session 2 acquires the same wire and opens a transaction; session 1's second attempt is rejected
+    (RRecycled) and writes nothing: the wire's log shows session 2's MULTI, SET, EXEC uninterrupted. *)
+Definition ex_retry : list dlabel :=
+  [ DAcquire 1; DDo 1 [bs "SET"; bs "k"; bs "v"]%string; DTry 1 [bs "GET"; bs "r"]%string;
+    DRelease 1; DAcquire 2; DDo 2 [bs "MULTI"]%string; DDo 2 [bs "SET"; bs "k2"; bs "v"]%string;
+    DDo 1 [bs "GET"; bs "r"]%string;
+    DDo 2 [bs "EXEC"]%string; DRelease 2 ].
+
+Example C25_nonvacuous_retry :
+  match drun (dinit 2 true) ex_retry with
+  | Some s =>
+    log_ok [] (d_log s) = true /\
+    served_cmds 2 (d_log s) =
+      [WUser [bs "SET"; bs "k"; bs "v"]; WUser [bs "GET"; bs "r"];
+       WUser [bs "MULTI"]; WUser [bs "SET"; bs "k2"; bs "v"]; WUser [bs "EXEC"]]%string /\
+    d_res s = [(1, ROk); (2, ROk); (2, ROk); (1, RRecycled); (2, ROk)] /\
+    drun (dinit 2 true) (firstn 4 ex_retry ++ [DTry 1 [bs "GET"; bs "r"]%string]) = None
+  | None => False
+  end.
+Proof. vm_compute. repeat split. Qed.
+
